@@ -4,13 +4,38 @@ from props import P
 P("C07",
   title="Checkpoint archives are canonical and mismatches are rejected",
   design_ref="DESIGN.md §3 C07",
-  technique="Coq proof over an executable model of the archive writer/reader, Simulation.Save/LoadCheckpoint and the "
-            "seven entity loaders at the level of decoded tar entries and payload views + exact model/impl "
-            "correspondence by vm_compute",
-  level_text="(stage a) model + exact tie; theorems follow.",
-  level_note="partial below the payload level: the gzip/tar/JSON byte decoders are Go's.",
+  technique="Coq proof over an executable model of the archive writer/reader (incl. url.PathEscape/Unescape), "
+            "Simulation.Save/LoadCheckpoint and the seven entity loaders at the level of decoded tar entries and payload views "
+            "+ exact model/impl correspondence by vm_compute",
+  level_text="c07_canonical: for EVERY simulation (any number/kind of entities, any registration order of the rebuilt one, distinct "
+             "names) save -> load -> save writes the identical entry list (name-sorted, per-entity payloads equal), via "
+             "c07_entity_canonical (all seven entity kinds, sorted storage units / page tables / event snapshots) and "
+             "c07_read_write (read(write b es) = (b, sort es), PathUnescape(PathEscape n) = n). c07_no_panic: load_all never returns "
+             "Panic for ANY archive, registries and rebuilt simulation (proved for the fixed loaders; "
+             "c07_port_overflow_old_refuted is the pre-fix witness). One c07_mismatch_rejected_* theorem per kind: malformed "
+             "archive (non-regular/unknown entry, missing/duplicate/empty build id, duplicate entity), build id, entity set "
+             "(both directions), component spec, port capacities, overflow, storage capacity/unit, page size, unknown "
+             "message/event type or handler, and the general c07_mismatch_rejected_entity lifting any per-entity mismatch to "
+             "load_all = Err. PARTIAL below the payload level: gzip/tar/JSON/binary byte decoding is Go's; 'never panics on "
+             "arbitrary bytes' there is sampled (bit flips, truncation, garbage), not proved; the link theorem is complete only "
+             "for single-entity probes (c07_model_agreement_implies_property_partial).",
+  level_note="Trusted: Coq kernel + vm_compute; the hand-written model (C07/Model.v), tied on every run on ~700 cases: real "
+             "simulation.Simulation assemblies (components, event-driven components, ports with buffered messages, storages, page "
+             "tables, engine queue, ID generator) saved, rebuilt in a random order, loaded and saved again with archive BYTES "
+             "compared; 16 kinds of single-point configuration mutations (exact error kind compared); 22 kinds of damaged "
+             "archives; ~110 directed and random payload probes per loader. Payload bytes are mapped to the model's payload views "
+             "by the harness (views.go) using the same DTO shapes as the loaders.",
   assumptions=["sha256 of the Spec JSON is treated as injective (spec hashes are compared as strings; two different "
-               "specs with one hash would be accepted by the code and by the model alike)"],
-  trusted=["Go standard library byte decoders, not modelled: compress/gzip, archive/tar, encoding/json, encoding/binary"],
+               "specs with one hash would be accepted by the code and by the model alike)",
+               "entity names are byte strings; Go maps (storage units, per-process page tables) have distinct keys; the rebuilt "
+               "simulation has distinct entity names (registerEntity panics otherwise)",
+               "opaque blobs (message/event bodies, component State, pages, storage unit bytes) are compared by a 64-bit "
+               "fingerprint in the tie; their own round trip is property C08"],
+  trusted=["Go standard library byte decoders, not modelled: compress/gzip, archive/tar, encoding/json, encoding/binary "
+           "(a stream they reject is the model's KBroken / PMalformed input)",
+           "modelled, not verified: simulation/archive.go, simulation/checkpoint.go, modeling/component_checkpoint.go, "
+           "modeling/eventdriven_checkpoint.go, messaging/port_checkpoint.go, mem/storage_checkpoint.go, "
+           "mem/vm/pagetable_checkpoint.go, timing/serialengine_checkpoint.go, timing/idgenerator_checkpoint.go, net/url path "
+           "escaping"],
   quick_shards=8,
   )
